@@ -334,6 +334,31 @@ def check(rep, F, tier, replay=None):
             rep.lost("Int::from_str parses the whole string with %s instead of i128 (same shape, other parser): re-anchor INT-parse and re-read its grammar" % parsers[0])
         elif len(parsers) != 1 or slicers:
             rep.violation("INT-parse", "Int::from_str|%s|%s" % (",".join(H.short(p_) for p_ in parsers), ",".join(slicers)), "Int::from_str parses with %s%s: a second grammar is stacked on the std parser's own sign handling, so strings such as \"-+5\" are accepted as integers - a JSON metadata key changes from text to a number (and can collide with another key)" % ([H.short(p_) for p_ in parsers], " after handling the sign itself (%s)" % ", ".join(slicers) if slicers else ""), {})
+    # JSON-fields: a derived JSON form carries every field the CBOR writer reads
+    from ruleutil import fields_read as _fr
+    rep.rule("JSON-fields", "for every struct whose JSON form is derived (serde) and that has a CBOR writer: each field the CBOR writer reads is also read by the derived JSON writer (no #[serde(skip)] on a field that decides the bytes) - otherwise from_json(to_json(v)) serialises to different CBOR")
+    ser_, cb_ = {}, {}
+    for im in F.impls:
+        adt_ = im.get("self_adt") or im["self_ty"]
+        if im.get("trait") == "serde::Serialize":
+            ser_[adt_] = im
+        if im.get("trait") == "cbor_event::Serialize":
+            cb_[adt_] = im
+    n_jf = 0
+    for adt_ in sorted(set(ser_) & set(cb_)):
+        if adt_ not in F.adts or F.adts[adt_]["kind"] != "struct" or not ser_[adt_].get("derive"):
+            continue
+        js_ = [m["id"] for m in ser_[adt_]["methods"] if m["name"] == "serialize"]
+        cs_ = [m["id"] for m in cb_[adt_]["methods"] if m["name"] == "serialize"]
+        if not js_ or not cs_ or js_[0] not in F.fns or cs_[0] not in F.fns:
+            continue
+        n_jf += 1
+        rep.inst("JSON-fields")
+        jf_ = {f for a, f in _fr(F, js_[0], depth=1) if a == adt_}
+        cf_ = {f for a, f in _fr(F, cs_[0], depth=3) if a == adt_}
+        for f_ in sorted(cf_ - jf_):
+            rep.violation("JSON-fields", "%s.%s" % (adt_.rsplit("::", 1)[-1], f_), "the CBOR writer of %s reads `%s` but the derived JSON form does not carry it (skipped): a value whose `%s` was set through the API comes back from JSON with the default and serialises to different bytes (different hash)" % (adt_.rsplit("::", 1)[-1], f_, f_), {})
+    rep.floor("structs with derived JSON form and CBOR writer", 80, n_jf)
     return rep.finish(
         EXPLANATION,
         ["serde derive output is a faithful field-by-field form", "the registered inverse pairs are inverse functions (their own round trips are C01/C11/C14 clauses)"],
